@@ -255,6 +255,9 @@ Section Build.
             | ROk _ s4 => ROk tt (set_cx s4 prev)
             | e => e
             end
+          (* the pending code of the block failed: still inside the block, the popped context is put back
+             (repair of D37) so that the failed source is unwound to the right marks *)
+          | RErr k p s1 => RErr k p (set_nested s1 (prev :: nested s1))
           | e => e
           end
         | MCompile => ROk tt (set_cx s0 prev)
@@ -654,6 +657,69 @@ Section Build.
            end) fuel idx0
       end.
 
+    (* ---- enum Name  : A  3 = B ... endenum ----
+       `enum` opens a meta context that holds the two field words (dictionary names ":" and
+       "=", purged again when that context closes), pushes the enum flow and opens the meta
+       context in which the text up to the next field word runs.  A field word closes that
+       inner context, defines the constant in the outer one and opens a fresh inner one. *)
+    Definition def_immediate (name native : string) : M unit :=
+      let* _ := dict_insert name (DFun true (FNative native) None) in ret tt.
+
+    Definition i_enum : M unit :=
+      let* name := next_name in
+      i_nested_begin ;;
+      def_immediate ":" "%enum-field" ;;
+      def_immediate "=" "%enum-field-set" ;;
+      push_flow (FEnum name []) ;;
+      i_nested_begin.
+
+    (* value of a field without explicit value: previous + 1, rejected when that leaves the i128 range
+       (checked_add; before the repair of D36 the overflow-checking profile panicked and the
+       release profile wrapped), first = 0 *)
+    Definition enum_next_value (fields : list (string * Z)) : option Z :=
+      match rev fields with
+      | (_, prev) :: _ => if in_i128 (prev + 1)%Z then Some (prev + 1)%Z else None
+      | [] => Some 0%Z
+      end.
+
+    (* the top of the whole flow stack (flow_stack.last_mut(): the context mark is not consulted) *)
+    Definition enum_add_field (shortname : string) (val : list (string * Z) -> option Z) : M unit :=
+      let* s := get in
+      match flows s with
+      | FEnum name fields :: r =>
+        match val fields with
+        | Some v =>
+          put (set_flows s (FEnum name (fields ++ [(shortname, v)]) :: r)) ;;
+          let* _ := dict_insert shortname (DConst (CInt v)) in
+          i_nested_begin
+        | None => fail EOverflow None
+        end
+      | _ => fail EFlow None
+      end.
+
+    Definition i_enum_field : M unit :=
+      i_nested_end ;;
+      let* shortname := next_name in
+      enum_add_field shortname enum_next_value.
+
+    Definition i_enum_field_set : M unit :=
+      i_nested_end ;;
+      let* c := pop_data in
+      let* v := m_xint c in
+      let* shortname := next_name in
+      enum_add_field shortname (fun _ => Some v).
+
+    Definition i_endenum : M unit :=
+      i_nested_end ;;
+      let* s := get in
+      if (0 <? data_depth s)%nat then fail EMsg None
+      else
+        let* fl := pop_flow in
+        match fl with
+        | Some (FEnum _ _) => i_nested_end
+        | _ => fail EFlow None
+        end.
+
     Definition is_fvec f := match f with FVec => true | _ => false end.
     Definition is_fmap f := match f with FMap => true | _ => false end.
     Definition is_ftags f := match f with FTags => true | _ => false end.
@@ -674,7 +740,9 @@ Section Build.
         ("let", build_let_in fuel);
         ("^hex", i_set_fmt_base 16); ("^dec", i_set_fmt_base 10); ("^oct", i_set_fmt_base 8);
         ("^bin", i_set_fmt_base 2); ("fmt/prefix", emit_native "%fmt-prefix");
-        ("fmt/tags", emit_native "%fmt-tags"); ("fmt/upcase", emit_native "%fmt-upcase")
+        ("fmt/tags", emit_native "%fmt-tags"); ("fmt/upcase", emit_native "%fmt-upcase");
+        ("enum", i_enum); ("endenum", i_endenum);
+        ("%enum-field", i_enum_field); ("%enum-field-set", i_enum_field_set)
       ] in table_find t name.
 
     Definition run_immediate (fuel : nat) (f : fnref) : M unit :=
